@@ -1,5 +1,5 @@
 (* C10 — no needless serialisation. Statements only; proofs in PlanSkip.v. *)
-From Shred Require Import Base SrcParams Plan PlanObs PlanLemmas PlanInv PlanLoc PlanBuild PlanProps PlanSkip BatchProps OracleProps.
+From Shred Require Import Base SrcParams Plan PlanObs PlanLemmas PlanInv PlanLoc PlanBuild PlanProps PlanSkip BatchProps OracleProps PlanPrint SkipOracle.
 
 (* [justified sts done e]: if the system of entry e sits in stage k, then every stage j with
    (barrier index at its insertion) <= j < k
@@ -47,6 +47,21 @@ Print Assumptions C10_max_threads_is_widest_stage.
 Theorem C10_oracle_max_threads_holds_on_model : forall b, o_max_threads (layout_tags b) (max_threads b) = true.
 Proof. exact o_max_threads_on_model. Qed.
 Print Assumptions C10_oracle_max_threads_holds_on_model.
+
+(* the oracle `skip_justified` that suite S1 evaluates on the REAL layout (registration order, stages read off the
+   final layout, first usable stage recomputed at every barrier, conflicts on the effective access of batches,
+   dependency stages through the names) holds on the layout the model builds — any length, any nesting *)
+Theorem C10_oracle_skip_justified_holds_on_model_layouts :
+  forall rs b, plan rs = Ok b -> regs_times_ok rs -> NoDup (sys_tags rs) -> o_skip_justified rs (layout_tags b) = true.
+Proof. exact o_skip_justified_on_model. Qed.
+Print Assumptions C10_oracle_skip_justified_holds_on_model_layouts.
+(* the accessor handed to the scheduler for a registration holds nothing but what is declared inside it
+   (converse of C07's covering): conflicts seen by the planner are conflicts of the declared access *)
+Theorem C10_accessor_is_covered_by_the_declarations :
+  forall r a, reg_times_ok r -> reg_op r = Ok (OAdd a) ->
+  incl (o_reads a) (eff_reads r) /\ incl (o_writes a) (eff_writes r).
+Proof. intros r a. exact (reg_op_covered (size_reg r) r a (le_n _)). Qed.
+Print Assumptions C10_accessor_is_covered_by_the_declarations.
 
 Example C10_prebarrier_dependency :
   let rs := [RSys 1 [97] [] [] [] 5%Z; RBarrier; RSys 2 [98] [] [] [] 1%Z; RSys 3 [99] [[97]] [] [] 1%Z] in
